@@ -4,7 +4,9 @@ use crate::{Out, Rng};
 use lyon_path::math::{point, Point};
 use lyon_path::{Path, Polygon};
 use lyon_tessellation::geometry_builder::{BuffersBuilder, Positions, VertexBuffers};
-use lyon_tessellation::{FillOptions, FillRule, FillTessellator, Orientation};
+use lyon_tessellation::{
+    FillGeometryBuilder, FillOptions, FillRule, FillTessellator, FillVertex, GeometryBuilder, GeometryBuilderError, Orientation, VertexId,
+};
 
 #[derive(Clone, Debug)]
 pub struct Poly {
@@ -334,12 +336,107 @@ impl FillCfg {
 
 pub type Mesh = VertexBuffers<Point, u32>;
 
+/// geometry builder refusing the `k`-th vertex (1-based; 0 = never)
+pub struct RefuseAt<B> {
+    pub inner: B,
+    pub k: usize,
+    pub seen: usize,
+}
+impl<B: GeometryBuilder> GeometryBuilder for RefuseAt<B> {
+    fn begin_geometry(&mut self) {
+        self.inner.begin_geometry()
+    }
+    fn end_geometry(&mut self) {
+        self.inner.end_geometry()
+    }
+    fn add_triangle(&mut self, a: VertexId, b: VertexId, c: VertexId) {
+        self.inner.add_triangle(a, b, c)
+    }
+    fn abort_geometry(&mut self) {
+        self.inner.abort_geometry()
+    }
+}
+impl<B: FillGeometryBuilder> FillGeometryBuilder for RefuseAt<B> {
+    fn add_fill_vertex(&mut self, v: FillVertex) -> Result<VertexId, GeometryBuilderError> {
+        self.seen += 1;
+        if self.seen == self.k {
+            return Err(GeometryBuilderError::InvalidVertex);
+        }
+        self.inner.add_fill_vertex(v)
+    }
+}
+
+/// What the tessellator object went through BEFORE the call under test. The fill properties
+/// (C01-C03) are statements about every `FillTessellator` object, not only a newly created one:
+/// half of the cases run on an object that has already served other calls, some of them aborted
+/// by the geometry builder at the k-th vertex (spans left open with buffered triangles).
+/// Drawn from the case's RNG AFTER everything else, so that (seed, case id) still regenerates the
+/// same polygon as before this was added.
+#[derive(Clone, Debug)]
+pub struct History {
+    pub steps: Vec<(Poly, FillCfg, usize)>,
+}
+
+impl History {
+    pub fn gen(rng: &mut Rng) -> History {
+        let mut steps = Vec::new();
+        if rng.chance(1, 2) {
+            let n = rng.range(1, 3);
+            for _ in 0..n {
+                let poly = if rng.chance(1, 2) {
+                    // tall thin zig-zag strip: the span buffers triangles long before it ends
+                    let m = rng.range(3, 9);
+                    let x0 = rng.range(-20, 20) as f32;
+                    let mut l = Vec::new();
+                    let mut r = Vec::new();
+                    for i in 0..m {
+                        l.push(point(x0 + (i % 2) as f32 * 0.5, i as f32 * 2.0));
+                        r.push(point(x0 + 3.0 + (i % 2) as f32 * 0.5, i as f32 * 2.0 + 1.0));
+                    }
+                    r.reverse();
+                    l.extend(r);
+                    Poly { subs: vec![(l, true)], kind: "strip" }
+                } else {
+                    gen_poly(rng, 12)
+                };
+                let cfg = FillCfg::gen(rng);
+                let k = if rng.chance(2, 3) { rng.range(2, 12) as usize } else { 0 };
+                steps.push((poly, cfg, k));
+            }
+        }
+        History { steps }
+    }
+    pub fn tag(&self) -> &'static str {
+        if self.steps.is_empty() {
+            "fresh"
+        } else if self.steps.iter().any(|s| s.2 != 0) {
+            "used+aborted"
+        } else {
+            "used"
+        }
+    }
+    /// a tessellator object with this history
+    pub fn tessellator(&self) -> FillTessellator {
+        let mut tess = FillTessellator::new();
+        for (poly, cfg, k) in &self.steps {
+            let mut mesh = Mesh::new();
+            let _ = run_fill_refusing(&mut tess, poly, cfg, &mut mesh, *k);
+        }
+        tess
+    }
+}
+
 /// Run the fill tessellator through the chosen entry point. `polygon` entry needs a single
 /// sub-path; for several sub-paths it falls back to `events`.
 pub fn run_fill(tess: &mut FillTessellator, poly: &Poly, cfg: &FillCfg, mesh: &mut Mesh) -> Result<(), String> {
+    run_fill_refusing(tess, poly, cfg, mesh, 0)
+}
+
+/// `run_fill` against a geometry builder that refuses the `k`-th vertex (0 = never)
+pub fn run_fill_refusing(tess: &mut FillTessellator, poly: &Poly, cfg: &FillCfg, mesh: &mut Mesh, k: usize) -> Result<(), String> {
     let opts = cfg.options();
     let path = poly.to_path();
-    let mut bb = BuffersBuilder::new(mesh, Positions);
+    let mut bb = RefuseAt { inner: BuffersBuilder::new(mesh, Positions), k, seen: 0 };
     let r = match cfg.entry {
         0 => tess.tessellate(path.iter(), &opts, &mut bb),
         1 => tess.tessellate_path(&path, &opts, &mut bb),
